@@ -686,9 +686,17 @@ func c09Upstream(w *World, r *Report) {
 // trusted_proxies list) show up in, or wipe, the other's.
 func c09DefaultsNoSharing(w *World, r *Report) {
 	ri := r.Rule("C09.7", 1, "in the configuration defaults no reference value (pointer, map, slice) is placed into more than one field, and no struct local carrying one is copied more than once: each service's trusted_proxies storage is its own")
-	fn := w.Func("internal/config", "defaultConfig")
+	// the defaults: the function NewConfiguration calls to obtain the Configuration value it loads into
+	var fn *ssa.Function
+	if nc := w.Func("internal/config", "NewConfiguration"); nc != nil {
+		for _, ci := range callsIn(nc) {
+			if g := ci.Common().StaticCallee(); g != nil && g.Blocks != nil && fnPkgPath(g) == fnPkgPath(nc) && g.Signature.Params().Len() == 0 && g.Signature.Results().Len() == 1 && strings.HasSuffix(g.Signature.Results().At(0).Type().String(), "config.Configuration") {
+				fn = g
+			}
+		}
+	}
 	if fn == nil {
-		r.Undecided(ri, "internal/config.defaultConfig not found")
+		r.Undecided(ri, "the function providing the configuration defaults to NewConfiguration was not found")
 		return
 	}
 	r.Analysed(w.FnName(fn))
